@@ -405,7 +405,9 @@ class Conv1d(nn.Module):
         if padding == 'same':
             if stride != 1:
                 raise ValueError("padding='same' is not supported for strided convolutions")
-            padding = int(np.floor(kernel_size / 2))
+            if (dilation * (kernel_size - 1)) % 2 != 0:
+                raise ValueError("padding='same' needs an even dilation * (kernel_size - 1) (only symmetric padding is supported)")
+            padding = (dilation * (kernel_size - 1)) // 2
         if padding == 'valid':
             padding = 0
         
@@ -470,15 +472,17 @@ class Conv2d(nn.Module):
         
         kernel_size = np.broadcast_to(kernel_size, 2)
         stride = np.broadcast_to(stride, 2)
+        dilation = np.broadcast_to(dilation, 2)
         
-        if padding == 'same':
+        if isinstance(padding, str) and padding == 'same':
             if any(s != 1 for s in stride):
                 raise ValueError("padding='same' is not supported for strided convolutions")
-            padding = int(np.floor(kernel_size[0] / 2))
-        if padding == 'valid':
+            if any((d * (k - 1)) % 2 != 0 for k, d in zip(kernel_size, dilation)):
+                raise ValueError("padding='same' needs an even dilation * (kernel_size - 1) per axis (only symmetric padding is supported)")
+            padding = tuple(int(d * (k - 1)) // 2 for k, d in zip(kernel_size, dilation))
+        if isinstance(padding, str) and padding == 'valid':
             padding = 0
         padding = np.broadcast_to(padding, 2)
-        dilation = np.broadcast_to(dilation, 2)
         
         self.in_channels = in_channels
         self.out_channels = out_channels
